@@ -216,6 +216,27 @@ func (g *gctx) source(depth int, asset string, isAll bool, forbidden map[string]
 				unb = true
 			}
 		}
+		// an account first drawn on under a cap may come back later in the list without one: what it gives
+		// beyond the cap then comes after everything in between
+		if !unb && rapid.Bool().Draw(g.t, "comeBack") {
+			for _, sub := range subs[:len(subs)-1] {
+				mx, ok := sub.(SrcMax)
+				if !ok {
+					continue
+				}
+				inner, ok := mx.Src.(SrcAccount)
+				if !ok || inner.Overdraft != nil || forbidden[accKey(inner.Acc)] || emptied[accKey(inner.Acc)] {
+					continue
+				}
+				if lit, isLit := inner.Acc.(LitAccount); isLit && lit.Name == "world" {
+					continue
+				}
+				subs = append(subs, SrcAccount{Acc: inner.Acc})
+				emptied[accKey(inner.Acc)] = true
+				g.label("src:capped-then-plain")
+				break
+			}
+		}
 		g.label(fmt.Sprintf("src:inorder@%d", depth))
 		si := srcInfo{emptied: emptied, unbounded: unb, capacity: total}
 		if unb {
